@@ -83,7 +83,15 @@ def static_bank():
             # 1. nothing from outside the root, whatever the spelling
             own = ["/" + rel for rel in files] + ["/" + quote(rel) for rel in files] + ["/" + "".join(f"%{b:02X}" for b in rel.encode()) .replace("%2F", "/") for rel in files]
             abs_spelled = ["/%2F" + str(root).lstrip("/") + "/a.gmi", "/" + str(root).lstrip("/") + "/a.gmi", "/%2F%2F" + str(root).lstrip("/") + "/sub2/b.gmi"]
-            for path in SPELLINGS + own + abs_spelled:
+            # names NEAR every entry of the tree (links included): without its extension, with another one, with editor suffixes -
+            # a "try <name>.gmi" convenience or a fallback lookup must be contained like the request path itself
+            near = []
+            for dp, dns, fns in os.walk(root, followlinks=False):
+                for nm in dns + fns:
+                    rel_ = os.path.relpath(os.path.join(dp, nm), root)
+                    stem = rel_.rsplit(".", 1)[0] if "." in nm.strip(".") else rel_
+                    near += ["/" + quote(stem), "/" + quote(stem) + ".gemini", "/" + quote(stem) + ".txt", "/" + quote(rel_) + "~", "/" + quote(stem) + "/"]
+            for path in SPELLINGS + own + abs_spelled + sorted(set(near)):
                 req = static_request(path)
                 if req is None:
                     continue
@@ -169,7 +177,8 @@ def build_upload_tree(base: Path):
 
 class Faults:
     """storage faults: the k-th low-level write of a file opened for writing fails after `after` bytes;
-    or os.replace / open fails"""
+    or os.replace / open fails; or ("close") the data stay buffered and the failure is reported when the file is closed, `after`
+    bytes having reached the disk"""
 
     def __init__(self, kind, after=0):
         self.kind, self.after = kind, after
@@ -184,7 +193,7 @@ class Faults:
             def __init__(self, fobj):
                 self._f = fobj
 
-            def write(self, data):
+            def _write(self, data):
                 if f.kind == "write" and not f.fired:
                     f.fired = True
                     self._f.write(bytes(data)[:f.after])
@@ -195,8 +204,25 @@ class Faults:
             def __enter__(self):
                 return self
 
-            def __exit__(self, *a):
+            def write(self, data):  # noqa: F811  (buffered variant: see close)
+                if f.kind == "close":
+                    self._pending = getattr(self, "_pending", b"") + bytes(data)     # stays in the buffer, as small writes do
+                    return len(data)
+                return self._write(data)
+
+            def close(self):
+                # a full disk / quota / I/O error is reported when the buffer is flushed: at close()
+                if f.kind == "close" and not f.fired and not self._f.closed:
+                    f.fired = True
+                    self._f.write(getattr(self, "_pending", b"")[:f.after])
+                    self._f.close()
+                    raise OSError(28, "No space left on device (injected, at close)")
+                if not self._f.closed and getattr(self, "_pending", b""):
+                    self._f.write(self._pending)
                 self._f.close()
+
+            def __exit__(self, *a):
+                self.close()
                 return False
 
             def __getattr__(self, n):
@@ -246,7 +272,7 @@ def upload_bank():
     tried = 0
     clause = "[C14] the only change is the one regular file the path denotes inside the upload directory, with exactly the bytes sent; a refused or failed request changes nothing"
     for path in UPLOAD_PATHS + ["@ABS@/abs.gmi"]:
-        for scenario in ("plain", "wrong-token", "no-token", "good-token", "too-big", "bad-mime", "delete-off", "delete-on", "fault-write-0", "fault-write-3", "fault-open", "fault-replace"):
+        for scenario in ("plain", "wrong-token", "no-token", "good-token", "too-big", "bad-mime", "delete-off", "delete-on", "fault-write-0", "fault-write-3", "fault-open", "fault-replace", "fault-close-0", "fault-close-5"):
             base = Path(tempfile.mkdtemp(prefix="pyvc_up_"))
             try:
                 up = build_upload_tree(base)
@@ -266,6 +292,8 @@ def upload_bank():
                     content, kw["enable_delete"] = b"", True
                 if scenario.startswith("fault-write"):
                     fault = Faults("write", int(scenario.rsplit("-", 1)[1]))
+                if scenario.startswith("fault-close"):
+                    fault = Faults("close", int(scenario.rsplit("-", 1)[1]))
                 if scenario == "fault-open":
                     fault = Faults("open")
                 if scenario == "fault-replace":
